@@ -119,6 +119,39 @@ fn fixed_matrices() -> Vec<(&'static str, Vec<Vec<i64>>, usize)> {
     ]
 }
 
+/// Many cases: an evaluation suite of hundreds of thousands of cases is ordinary use. Duplicated
+/// individuals stay tied through every case, one individual differs only on the last case: the
+/// selection must return (a survivor), the dominated one never, the tied ones all.
+fn many_cases(seed: u64, rep: &mut Report) {
+    for (cases, copies) in [(1_000usize, 3usize), (50_000, 2), (300_000, 3)] {
+        let base: Vec<i64> = (0..cases as i64).map(|c| c % 7).collect();
+        let mut worse = base.clone();
+        *worse.last_mut().unwrap() -= 1;
+        let mut rows: Vec<Vec<i64>> = (0..copies).map(|_| base.clone()).collect();
+        rows.push(worse);
+        let pop: Vec<_> = rows.iter().enumerate().map(|(i, r)| ind_s(i as u32, r)).collect();
+        let sel = Lexicase::new(cases);
+        let mut seen = vec![0u32; rows.len()];
+        let mut rng = TraceRng::derive(seed, "C08-many", cases as u64);
+        vh_core::shard::set_context(format!("C08 many cases: {cases} cases, {copies} identical individuals and one that is worse on the last case"));
+        for _ in 0..24 {
+            rep.eval();
+            rep.count("many-cases");
+            match catch(|| sel.select(&pop, &mut rng).map(|w| w.genome as usize).map_err(|e| format!("{e:?}"))) {
+                Ok(Ok(w)) if w < copies => seen[w] += 1,
+                other => {
+                    rep.violation("C08/many-cases", || json!({"cases": cases, "identical_individuals": copies, "observed": format!("{other:?}"), "expected": "one of the identical individuals (the last one is worse on one case)"}));
+                    return;
+                }
+            }
+        }
+        rep.distinct(fnv_str(&format!("many{cases}")));
+        // 24 draws among `copies` tied survivors: each is returned at least once (p(miss) <= 3 * (2/3)^24 < 2e-4 is too
+        // high to judge; only the support is recorded)
+        rep.table_push("many_cases", json!({"cases": cases, "draws": 24, "returned_per_identical_individual": &seen[..copies]}));
+    }
+}
+
 fn run_matrix(name: &str, m: &[Vec<i64>], cases: usize, errors: bool, draws: u64, seed: u64, rep: &mut Report) {
     // goodness view
     let good: Vec<Vec<i64>> = m.iter().map(|r| r.iter().map(|v| if errors { -*v } else { *v }).collect()).collect();
@@ -244,6 +277,7 @@ pub fn run(args: &Args) -> i32 {
         rep
     });
     let mut rep = rep;
+    many_cases(args.seed, &mut rep);
     rep.table("statistical_monitor", json!({
         "draws_per_configuration": draws,
         "per_category_false_alarm_bound": vh_core::stats::DELTA,
